@@ -110,6 +110,15 @@ def replace_typevars(ty: t.Any,
     if isinstance(ty, t.Sequence) and not isinstance(ty, (str, bytes)):
         return type(ty)(replace_typevars(t, replacements) for t in ty)  # type: ignore
 
+    if isinstance(ty, type) and '__pane_boundvars__' in ty.__dict__:
+        # a subscripted pane dataclass: a real subclass rather than a `typing` alias,
+        # so `get_origin`/`get_args` don't see its type arguments
+        pane_args = tuple(ty.__dict__['__pane_boundvars__'].values())
+        new_args = tuple(replace_typevars(arg, replacements) for arg in pane_args)
+        if all(new is old for (new, old) in zip(new_args, pane_args)):
+            return ty
+        return ty.__dict__['__origin__'][new_args]
+
     base = t.get_origin(ty) or ty
     args = t.get_args(ty)
 
